@@ -160,7 +160,7 @@ def prepare_scratch(scratch, files):
     subprocess.check_call(["rsync", "-a", "--delete", "--exclude", "target", KIRA + "/", dst + "/"])
     shutil.copy(os.path.join(REPO, "Cargo.lock"), os.path.join(dst, "Cargo.lock"))
     with open(os.path.join(dst, "Cargo.toml"), "a") as f:
-        f.write("\n[workspace]\n\n[lints.rust]\nunexpected_cfgs = { level = \"allow\", check-cfg = ['cfg(kani)', 'cfg(kira_verif)'] }\n")
+        f.write("\n[workspace]\n\n[lints.rust]\nunexpected_cfgs = { level = \"allow\", check-cfg = ['cfg(kani)', 'cfg(kira_verif)', 'cfg(kv_native)'] }\n")
     modmap = {}
     for path, target in files:
         tpath = os.path.join(dst, target)
@@ -358,6 +358,9 @@ def replay_natively(h, crate, logdir, failed, tier):
             plog = os.path.join(logdir, "%s.native.%s.log" % (t[2], profile))
             cmd = ["cargo", "kani", "playback", "--no-default-features", "--lib", "-Z", "concrete-playback"]
             env = dict(ENV)
+            # native replays run the REAL libm / kernels (stubs do not exist natively): harnesses switch
+            # from their spy/uninterpreted oracle to a plain reference oracle under cfg(kv_native)
+            env["RUSTFLAGS"] = ENV["RUSTFLAGS"] + " --cfg kv_native"
             if profile == "release":
                 # `cargo kani playback` has no --release: give the dev profile release semantics
                 env.update({"CARGO_PROFILE_DEV_OPT_LEVEL": "3", "CARGO_PROFILE_DEV_DEBUG_ASSERTIONS": "false",
@@ -372,6 +375,12 @@ def replay_natively(h, crate, logdir, failed, tier):
             mm = re.search(r"panicked at ([^\n]*)\n([^\n]*)", ptxt)
             if mm:
                 msg = (mm.group(1) + " " + mm.group(2)).strip()
+            # stubs draw their nondeterministic values AFTER the harness inputs; natively they are not called,
+            # so Kani's playback runtime complains about left-over values once the harness has run to its end
+            # WITHOUT failing: that is a native PASS of the harness, not a reproduction
+            if failed_native and "concrete_playback.rs" in msg and not hung:
+                failed_native = False
+                passed = "left over" in msg
             out["tests"].append({"check": t[1], "test": t[2], "profile": profile,
                                  "native_fails": bool(failed_native or hung), "hang": bool(hung),
                                  "native_passes": bool(passed), "panic": msg[:300],
